@@ -212,7 +212,7 @@ func c11(w *World) {
 	if logged {
 		sc.DoLogon(30)
 	}
-	n := 1 + w.W.Draw(12)
+	n := 1 + w.W.Draw(w.Deep(12))
 	for i := 0; i < n && !sc.P.EOF && w.Sched.AbortReason() == ""; i++ {
 		data := hostileBytes(w.W, sc.NextSeq(), sc.PeerID, sc.LibID)
 		switch w.W.Pick(5, 2, 3) {
